@@ -12,6 +12,9 @@ CLAIMED = {
  'C13': dict(level='model_checking', engine='e1-cbmc', design='§5 C13', technique='IR->C translation of the real HistogramNew::Process + CBMC (bit-precise doubles/ints, bounds checks) for memory safety; symbolic execution + z3 (linear int/real) for bin semantics, normalisation and the legacy auto range',
    text='E1: for every finite v, scale, min<max, step>0 and nbins<=8 (thorough 64), periodic or not, CBMC shows every memory access of the translated real Process stays inside the nbins-double buffer (unwinding assertions on, reachability witness). E2: for nbins<=3 (thorough 5), all real min, listed range lengths, all real values/weights, each bin ends up with exactly the weights of the values whose nearest centre it is (wrapped modulo nbins when periodic, dropped otherwise), bins sum to the accepted weight, Normalize keeps ratios and makes sum*step=1, and the legacy Histogram automatic range is exactly [min,max] of the data for any sign.',
    note='allocation failure out of scope; out-of-range double->int64 conversion reported as UB-CLASS (not a violation); E2 in exact reals; legacy histogram only for n_=3, auto range, no scaling'),
+ 'C18': dict(level='model_checking', engine='e1-cbmc', design='§5 C18', technique='IR->C translation of the real wildcmp + CBMC against a dynamic-programming glob matcher (bit-precise, all byte values); symbolic execution of the real RangeParser with placeholder tokens for the integers + z3',
+   text='E1: for every pattern and string of length <= 5 (thorough 7) over the full 8-bit alphabet the real wildcmp returns exactly the glob verdict, and with exactly sized buffers (length <= 3, thorough 4) it never reads past a terminator; unwinding assertions on. E2: for begin/stride/end in [-3,3] (thorough [-6,6]) as solver integers and the forms a:s:b, a:b, a and two-block lists, every path of the real Parse/ParseBlock/iterator/operator<< is explored: accepted expressions terminate and enumerate exactly b, b+s, ... up to e in order, rejection happens only for stride 0 or wrong direction, every valid expression is accepted, printing and re-parsing gives the same sequence, more than three fields are rejected.',
+   note='decimal digit conversion is abstracted by placeholder tokens (strtol / ostream<<long models); IndexParser and BeadList name: selection are not covered; lengths and integer window are bounds'),
  'C20': dict(level='other', design='§5 C20', technique='symbolic enum arguments through the real convert() switch tables (ite chains) + z3 over exact rationals; ground constant checks against CODATA values embedded in the checker',
    text='For all ordered pairs and triples of enumerators of every dimension (enum arguments are solver variables): convert(a,b)*convert(b,a)=1, convert(a,b)*convert(b,c)=convert(a,c), positivity, agreement with SI/CODATA-2018 magnitudes to 1e-4, derived units = quotient of base conversions to 2^-50; tools::conv constants vs CODATA and vs UnitConverter to 1e-4; CsgUnits are the documented internal units.',
    note='double literals taken as exact rationals; reference values live in props/C20.py; Elements tables outside; one known finding (kcal2kj) listed in known_findings.json'),
